@@ -299,6 +299,7 @@ def in_model_domain(g):
             if "atom_map" in a and not isinstance(a["atom_map"], int):
                 return False
         seen = set()
+        kinds = set()
         ids = {n for n, _ in g["nodes"]}
         if len(ids) != len(g["nodes"]):
             return False
@@ -308,12 +309,17 @@ def in_model_domain(g):
             seen.add(frozenset((u, v)))
             if set(a) - {"order", "standard_order"} or "order" not in a:
                 return False
-            _half(a["order"])
-            if _half(a["order"]) < 0:
+            o = a["order"]
+            if isinstance(o, (list, tuple)):
+                if len(o) != 2 or min(_half(o[0]), _half(o[1])) < 0:
+                    return False
+            elif _half(o) < 0:
                 return False
+            kinds.add(isinstance(o, (list, tuple)))
             if "standard_order" in a:
                 _half(a["standard_order"])
-        return True
+        # scalar and tuple-valued orders in one graph cannot be compared by the exact back-end (TypeError): outside the domain
+        return len(kinds) <= 1
     except (ValueError, TypeError):
         return False
 
@@ -367,7 +373,21 @@ def impl(case):
         for row, H in zip(vo, hs):
             row.append(bool(sg0 == SynGraph(H, c)))
             row.append(bool(cg0 == CanonicalGraph(H, c)))
-    return [[[out, pat], vo], _rule_vo(case)]
+    return [[[[out, pat], vo], _rule_vo(case)]] + _graph_sig_obs(case)
+
+
+def _graph_sig_obs(case):
+    """NautyCanonicalizer.graph_signature: the label it hashes (per presentation) and the equality pattern of the digests."""
+    c = _canoniser("nauty")
+    labels, sigs = [], []
+    for p in _present(case):
+        G = _nx(p)
+        Gc = c.nauty.canonical_form(G)
+        labels.append(c.nauty._build_label(Gc, sorted(Gc.nodes())))
+        sigs.append(c.nauty.graph_signature(G))
+    for h in case.get("others", []):
+        sigs.append(c.nauty.graph_signature(_nx(h)))
+    return [labels, _pattern(sigs)]
 
 
 RULE_VO_MAX_NODES = 6
@@ -420,8 +440,11 @@ def _cgraph(g):
                                                copt(cZ(a["atom_map"]) if "atom_map" in a else None)))
     es = []
     for u, v, a in g["edges"]:
-        es.append("(%s, %s, EA %s %s)" % (cN(u), cN(v), cZ(_half(a["order"])),
-                                         copt(cZ(_half(a["standard_order"])) if "standard_order" in a else None)))
+        so = copt(cZ(_half(a["standard_order"])) if "standard_order" in a else None)
+        if isinstance(a["order"], (list, tuple)):
+            es.append("(%s, %s, EA3 %s %s %s)" % (cN(u), cN(v), cZ(_half(a["order"][0])), so, copt(cZ(_half(a["order"][1])))))
+        else:
+            es.append("(%s, %s, EA %s %s)" % (cN(u), cN(v), cZ(_half(a["order"])), so))
     return "(LG %s %s)" % (clist(ns), clist(es))
 
 
@@ -445,7 +468,7 @@ def coq_case(case):
     for p in ps:
         G = _nx(p)
         items.append("(%s, %s, %s)" % (_cgraph(p), _cranks(_wl_ranks(G), p), _cranks(_morgan_ranks(G), p)))
-    return "run_case3 %s %s %s" % (clist(items), clist([_cgraph(h) for h in case.get("others", [])]),
+    return "run_case4 %s %s %s" % (clist(items), clist([_cgraph(h) for h in case.get("others", [])]),
                                    clist([_cgraph(h) for h in _rule_hs(case)]))
 
 
@@ -530,9 +553,11 @@ def _oracle_graph(case):
                 fails.append(_fail("nauty-invariant", "isomorphic graphs get different signatures; A=%r B=%r" % (p0, h)))
         if len(fails) >= 4:
             break
-    if len(fails) < 4 and case.get("sub") != "neighbour" and len(case["g"]["nodes"]) <= 16:
+    # the multi-step clauses run on every case of the small / special populations and on every third iso3 / iso4 case
+    deep = case.get("deep", case.get("sub") not in ("neighbour", "iso3", "iso4"))
+    if len(fails) < 4 and deep and len(case["g"]["nodes"]) <= 16:
         _oracle_history(case, fails)
-    if len(fails) < 4 and case.get("sub") != "neighbour" and len(case["g"]["nodes"]) <= 12:
+    if len(fails) < 4 and deep and len(case["g"]["nodes"]) <= 12:
         _oracle_nauty_direct(case, fails)
     return fails[:4]
 
@@ -885,7 +910,7 @@ def distribution(cases, obss):
         if _n_aut_gt1_or_tied(c["g"]):
             tied += 1
         try:
-            for row in o[0][0][0]:
+            for row in o[0][0][0][0]:
                 refines += len(row[3][2])
                 leaves += len(row[3][3])
                 if len(row[3][3]) > 1:
@@ -1251,6 +1276,11 @@ def gen_cases(tier, rng):
     cases += _its_cases(rng, tier) + _degenerate_cases(rng) + _size_cases(rng, tier)
     # the symmetric families are the expensive cases (cube, Petersen: hundreds of leaves and _refine calls each):
     # spread them over the shards instead of putting them into one
+    k3 = 0
+    for c in cases:
+        if c.get("sub") in ("iso3", "iso4"):
+            c["deep"] = (k3 % 3 == 0)
+            k3 += 1
     step = max(1, len(cases) // (len(fam) + 1))
     for k, c in enumerate(fam):
         cases.insert(min(len(cases), (k + 1) * step + k), c)
